@@ -636,8 +636,10 @@ class Topology(ABC):
         are violated.
         :return:
         """
-        # check nodes
+        # check nodes (the nodes view leaves out facilities, their constraints apply too)
         for n in self.nodes.values():
+            n.validate_constraints()
+        for n in self.facilities.values():
             n.validate_constraints()
 
         check_num_instances = set()
